@@ -444,9 +444,33 @@ func checkDecoderWindow(c *Ctx, p *core.Prog, ts *ssa.Function, read *ssa.Call) 
 		}
 		n++
 		arg, ok := call.Common().Args[0].(*ssa.Slice)
-		good := ok && sl != nil && sameSliceBase(arg.X, sl.X) && arg.High == nil
-		c.R.Check(good, "R08.5", "tokenizeStream: the rune decoder sees the carry-over bytes beyond the window target", p.Pos(call.Pos()),
-			"DecodeRune(buf[i:]) on the read buffer", "the slice given to the decoder is capped (or is another buffer): a multi-byte rune that straddles the window edge is decoded as U+FFFD, so shifting the text by a few bytes changes the tokens")
+		// the decoder's slice ends where the valid bytes of the buffer end: offset of the read + number of bytes read.
+		// Ending it earlier (at the window target) tears a rune that straddles the window edge; not ending it at all lets
+		// the decoder complete a truncated rune at the end of the input with bytes left over from earlier reads.
+		validEnd := func(v ssa.Value) bool {
+			bo, isBo := v.(*ssa.BinOp)
+			if !isBo || bo.Op != token.ADD || sl == nil {
+				return false
+			}
+			isN := func(x ssa.Value) bool {
+				ex, isEx := x.(*ssa.Extract)
+				return isEx && ex.Index == 0 && ex.Tuple == ssa.Value(read)
+			}
+			return (bo.X == sl.Low && isN(bo.Y)) || (bo.Y == sl.Low && isN(bo.X))
+		}
+		good := ok && sl != nil && sameSliceBase(arg.X, sl.X) && arg.High != nil && validEnd(arg.High)
+		why := "DecodeRune(buf[i:end]) with end = read offset + bytes read"
+		if !good {
+			switch {
+			case !ok || sl == nil || !sameSliceBase(arg.X, sl.X):
+				why = "the decoder is not given a slice of the read buffer"
+			case arg.High == nil:
+				why = "the slice given to the decoder runs to the end of the buffer's capacity: at the end of the input the bytes behind the valid ones are left over from earlier reads, so a truncated multi-byte sequence at the very end is completed (or not) by stale bytes and the result depends on how the content is aligned to the buffer"
+			default:
+				why = "the slice given to the decoder is capped at " + core.AP(arg.High) + " instead of the end of the valid bytes: a multi-byte rune that straddles the window edge is decoded as U+FFFD, so shifting the text by a few bytes changes the tokens"
+			}
+		}
+		c.R.Check(good, "R08.5", "tokenizeStream: the rune decoder sees exactly the valid bytes of the read buffer (carry-over included, stale bytes excluded)", p.Pos(call.Pos()), why, why)
 	}
 	c.R.RequireMin("R08.5", "rune decode sites", n, 1)
 
